@@ -292,6 +292,10 @@ def check_case(case, enforce_all=False):
     if q is None:
         out.labels.append("skipped:" + expect.replace(" ", "-"))
         return out
+    if p.get("ulp"):
+        # the original has "almost equal" levels (degenerate for the library, |dE| = 5.7e-14 < atol, but not bit-identical);
+        # the transformed problem is posed with exactly equal ones: one and the same degenerate level either way
+        q = dict(q, ulp=False)
     if t == "direct_sum":
         return _check_direct_sum(case, out, p, q, expect)
     if len(p["blocks"]) == 1 and q.get("selection", {}).get("kind") == "none":
